@@ -34,7 +34,7 @@ func getWalk(c *core.Ctx) *walkModel {
 	cm := getConc(c)
 	// chain: the callee of the walk's returns that is not the walk itself
 	for _, r := range core.Returns(m.walk) {
-		if call, ok := r.Results[0].(*ssa.Call); ok {
+		if call, ok := spilled(r, 0).(*ssa.Call); ok {
 			if g := call.Call.StaticCallee(); g != nil && g != m.walk {
 				if m.chain != nil && m.chain != g {
 					core.Bail("walk returns through two different functions: %s, %s", m.chain.Name(), g.Name())
@@ -217,7 +217,7 @@ var ruleWalkDiscipline = &core.Rule{ID: "R03.2", Min: 6,
 				continue
 			}
 			n++
-			rc, ok := ret.Results[0].(*ssa.Call)
+			rc, ok := spilled(ret, 0).(*ssa.Call)
 			s.Check(ok && rc.Call.StaticCallee() == m.chain && rc.Call.Args[0] == ssa.Value(recv), "no child matched: "+returnOrdinal(ret), c.Pos(ret.Pos()), "chain clone of the receiver", "when no child accepts, the result is not the clone of the receiver's own chain")
 		}
 		s.Check(n >= 1, "loop exit returns", c.Pos(f.Pos()), fmt.Sprint(n), "no return after the children loop")
